@@ -28,6 +28,7 @@ def plan(tier):
     KP = dict(kinds=("P", "K"), starve="eager:parent:manager", kill_when="in:_adjust_process_count",
               p_when="get_exitcodes_terminated_worker")
     pl += [(PG.reusable_resize(2, 3, None), 2, KP), (PG.reusable_resize(1, 3, None), 2, KP)]
+    pl += [(PG.cancel_run_then_resize(8, 1, 2), 1, PT), (PG.cancel_run_then_resize(6, 2, 1), 0, PT)]
     pl += [(PG.resize_vs_callback_submit(1, 3), 1, PT), (PG.resize_vs_callback_submit(2, 1), 1, PT)]
     if tier == "thorough":
         TR = dict(kinds=("T",), t_when="_resize", t_scope="worker", t_cur="parent:main")
